@@ -253,8 +253,19 @@ async fn run_case(line: &str, scratch: &std::path::Path) -> String {
                 progressed = true;
                 match cmd {
                     PeerCmd::PieceDone { resp_ch, .. } => {
+                        // "treated as owned only after such verified data has been stored": at the instant the report
+                        // reaches the manager side a piece file that was not there before must exist, complete and verified
+                        let stored = std::fs::read_dir(".")
+                            .map(|rd| {
+                                rd.flatten().any(|e| {
+                                    let name = e.file_name().to_string_lossy().to_string();
+                                    let data = std::fs::read(&name).unwrap_or_default();
+                                    seen_files.get(&name) != Some(&data) && hashes.iter().any(|h| hexname(h) == name && sha1(&data) == *h)
+                                })
+                            })
+                            .unwrap_or(false);
                         let _ = resp_ch.send(piece_reply(&pol.get("done"), &plens, &hashes));
-                        cmds.push("DONE".into());
+                        cmds.push(if stored { "DONE".into() } else { "DONE-EARLY".into() });
                     }
                     PeerCmd::PieceCancel { resp_ch, .. } => {
                         let _ = resp_ch.send(piece_reply(&pol.get("cancel"), &plens, &hashes));
